@@ -293,6 +293,7 @@ def run(a, prop, modname, shards, cases, seconds, work, t0):
             'known_findings_stale': stale,
             'directed_witnesses': len(dentries),
             'inconclusive': inconclusive,
+            'notes': sorted(set(notes))[:10],
             'code_under_observation': envinfo,
             'reach_in_anchor_files': reach,
             'unknown_violation_keys': sorted(seen_keys),
